@@ -742,3 +742,42 @@ def is_param_named(e, name):
 
 def mentions_param_named(e, name):
     return contains(e, lambda x: is_param_named(x, name))
+
+
+def local_depends_on(body, local, pred, depth=0, seen=None):
+    """Does the value held in `local` depend on something satisfying pred - by data through its definitions,
+    or through calls that receive `&mut local` (in-place mutation with other arguments)?"""
+    if seen is None:
+        seen = set()
+    if local in seen or depth > 6:
+        return False
+    seen.add(local)
+    e = body.expr_of_local(local)
+    if contains(e, pred):
+        return True
+    # aliases: locals that are moves/copies of this local, and the locals this one was moved from
+    whole, _ = body.defs
+    for loc, kind, payload in whole.get(local, []):
+        if kind == "assign" and payload["k"] == "use" and payload["op"]["k"] in ("move", "copy") and not payload["op"]["place"]["proj"]:
+            if local_depends_on(body, payload["op"]["place"]["l"], pred, depth + 1, seen):
+                return True
+    # in-place mutation through &mut local
+    muts = set()
+    for loc, s in body.iter_stmts():
+        if s["k"] == "assign" and s["rv"]["k"] == "ref" and s["rv"]["mut"] and s["rv"]["place"]["l"] == local and not s["place"]["proj"]:
+            muts.add(s["place"]["l"])
+    changed = True
+    while changed:
+        changed = False
+        for loc, s in body.iter_stmts():
+            if s["k"] == "assign" and not s["place"]["proj"] and s["rv"]["k"] in ("ref", "use"):
+                src = s["rv"]["place"] if s["rv"]["k"] == "ref" else (s["rv"]["op"].get("place") if s["rv"]["op"]["k"] in ("move", "copy") else None)
+                if src and src["l"] in muts and s["place"]["l"] not in muts:
+                    muts.add(s["place"]["l"])
+                    changed = True
+    for blk, t in body.calls():
+        if t["args"] and t["args"][0]["k"] in ("move", "copy") and t["args"][0]["place"]["l"] in muts:
+            for a in t["args"][1:]:
+                if contains(body.expr_of_op(a), pred):
+                    return True
+    return False
